@@ -746,6 +746,12 @@ fn inflate_copy_case(t: &mut Tape, ctx: &Ctx, o: &mut Outcome) {
 }
 
 pub fn inflate_reset_case(t: &mut Tape, ctx: &Ctx, o: &mut Outcome) {
+    inflate_reset_case_opts(t, ctx, o, true)
+}
+
+/// `allow_sync` = false: no inflateSync in the history (C10 borrows this twin for "stale memory after reuse"; what
+/// inflateSync does to the checking mode is a documented state change, C14's business - see K4)
+pub fn inflate_reset_case_opts(t: &mut Tape, ctx: &Ctx, o: &mut Outcome, allow_sync: bool) {
     let so = SubjectOpts::all();
     let s1 = gen_subject(t, &so);
     let s2 = gen_subject(t, &so);
@@ -762,6 +768,7 @@ pub fn inflate_reset_case(t: &mut Tape, ctx: &Ctx, o: &mut Outcome) {
     // inflateSync in the history (3: on bytes without a marker -> fails; 4, 5: with a 00 00 FF FF marker -> succeeds),
     // and then a continuation whose trailer is damaged: whether checking is still on is part of "like a fresh stream"
     let sync_mode = if how == 3 { 0 } else { t.below(6) };
+    let sync_mode = if allow_sync { sync_mode } else { 0 };
     let damage_trailer = sync_mode >= 3 && t.bool();
     let (mut s1, mut s2) = (s1, s2);
     let mut mode_arg_override: Option<c_int> = None;
